@@ -15,9 +15,19 @@
      each of the four stringified texts is a valid JSON text that the reader decodes to json_of d, Go's own
      decoder agrees (decoded_equal), and parsing + stringifying again gives the same text as before
      (in the template: rt = raw; through the exported functions: reparse = direct).
-   Agreement: every text equals what M computes (stringify_data d, and parse-then-stringify of it). *)
+   Agreement: every text equals what M computes (stringify_data d, and parse-then-stringify of it).
+
+   A case may carry a HISTORY run in the same process after the six observations above (Models/JsonHist.v):
+     steps   the abstract history: HConv / HParse / HMut / HOut over numbered variables (what the generated
+             templates and exported-API calls do, in execution order; several renders, engines, templates)
+     outs    one text per HOut, in order (None = that render / API segment failed)
+   Oracle for the history (S only: spec_run = value semantics on JSON trees, pristine_run):
+     an output of a value nothing was done to (the data, or a parse of its text - however many other copies were
+     parsed and mutated before) is byte for byte the text t of the data; an output of a mutated copy is a valid
+     JSON text that reads as the mutated tree.
+   Agreement for the history: outs = run_data d steps (M: the heap machine without a table). *)
 From PV Require Import Base.Bytes Base.Escape Run.Verdict.
-From PV Require Export Models.Json.   (* generated case files name its constructors *)
+From PV Require Export Models.Json Models.JsonHist.   (* generated case files name their constructors *)
 
 Record case12 := {
   src : gv;
@@ -28,6 +38,8 @@ Record case12 := {
   rt : option bytes;
   reparse : option bytes;
   decoded_equal : bool;
+  steps : list hstep;
+  outs : list (option bytes);
 }.
 
 Definition is_text (o : option bytes) (t : bytes) : bool :=
@@ -75,6 +87,30 @@ Definition text_ok (j : jv) (t : bytes) (ok_t : bool) (o : option bytes) : bool 
   | None => false
   end.
 
+(* S against Go's own outputs: sp = spec_run, fl = pristine_run *)
+Fixpoint hist_oracle (t : bytes) (sp : list (option jv)) (fl : list bool) (os : list (option bytes)) : bool :=
+  match sp, fl, os with
+  | [], [], [] => true
+  | Some j' :: sp', b :: fl', Some x :: os' =>
+    (if b then bytes_eqb x t else reads_as j' x) && hist_oracle t sp' fl' os'
+  | _, _, _ => false
+  end.
+
+(* data the Gallina value space does not cover: the untouched values still must give the text t, the others a JSON text *)
+Fixpoint hist_plain (t : bytes) (fl : list bool) (os : list (option bytes)) : bool :=
+  match fl, os with
+  | [], [] => true
+  | b :: fl', Some x :: os' => (if b then bytes_eqb x t else valid_json x) && hist_plain t fl' os'
+  | _, _ => false
+  end.
+
+Fixpoint outs_eqb (a b : list (option bytes)) : bool :=
+  match a, b with
+  | [], [] => true
+  | x :: a', y :: b' => opt_text_eqb x y && outs_eqb a' b'
+  | _, _ => false
+  end.
+
 Definition judge (c : case12) : nat :=
   let d := src c in
   match direct c with
@@ -84,19 +120,25 @@ Definition judge (c : case12) : nat :=
   | Some t =>
     let esc' := option_map unescape5 (esc c) in
     let fixpoint := opt_text_eqb (reparse c) (Some t) && opt_text_eqb (rt c) (raw c) in
-    if modelled d then
+    let fl := pristine_run (steps c) [] in
+    if modelled d && steps_modelled (steps c) then
       let j := json_of d in
-      let ok_t := reads_as j t in
-      let oracle := ok_t && text_ok j t ok_t (raw c) && text_ok j t ok_t (helper c) && text_ok j t ok_t esc'
-                    && fixpoint && decoded_equal c in
-      let m := stringify_data d in
-      let mre := model_reparse m in
-      let agree := bytes_eqb t m && is_text (raw c) m && is_text (helper c) m && is_text esc' m
-                   && opt_text_eqb (reparse c) mre && opt_text_eqb (rt c) mre in
-      verdict (dom_C12 d) oracle agree
-    else if dom_other d then
+      if steps_fit (steps c) [] j then
+        let ok_t := reads_as j t in
+        let oracle := ok_t && text_ok j t ok_t (raw c) && text_ok j t ok_t (helper c) && text_ok j t ok_t esc'
+                      && fixpoint && decoded_equal c
+                      && hist_oracle t (spec_run j (steps c) []) fl (outs c) in
+        let m := stringify_data d in
+        let mre := model_reparse m in
+        let agree := bytes_eqb t m && is_text (raw c) m && is_text (helper c) m && is_text esc' m
+                     && opt_text_eqb (reparse c) mre && opt_text_eqb (rt c) mre
+                     && outs_eqb (outs c) (run_data d (steps c)) in
+        verdict (dom_C12 d && steps_dom (steps c)) oracle agree
+      else v_unmodelled     (* a history that does not type-check: not something the generator writes *)
+    else if dom_other d && steps_dom (steps c) then
       (* only the Go-side oracle and the recogniser can speak: all texts valid, identical, fixpoint, decoded_equal *)
       if valid_json t && is_text (raw c) t && is_text (helper c) t && is_text esc' t && fixpoint && decoded_equal c
+         && hist_plain t fl (outs c)
       then v_unmodelled else v_violation
     else v_unmodelled
   end.
